@@ -195,6 +195,7 @@ def run(run):
     for c in ('north', 'east', 'down', 'VN', 'VE', 'VD', 'roll', 'pitch', 'heading'):
         box['e_%s' % c] = (-1, 1)
     rep = enga.AReport(run, box=box)
+    rep.definedness = True
     run.assume('exact real arithmetic; |lat| <= 85 deg, |pitch| <= 85 deg, |V| <= 300 m/s per axis, altitude [-1, 30] km',
                'smallness of the error vector is the formal parameter eps: "to first order" = the eps^1 coefficient, "up to second order" = the eps^1 coefficient of the residual is identically zero',
                'Rotation.from_rotvec / from_euler / as_euler and np.linalg.inv are stubs of the library contract (exponential series; elementary rotations; atan2 angle recovery; adjugate/det)',
